@@ -303,6 +303,161 @@ fn live_body(senders: usize, self_send: bool, drain_and_wait: bool) -> vsched::B
     })
 }
 
+// ---------------------------------------------------------------------------------------------
+// cluster build ("alt"): sends and drains issued re-entrantly while a message is being boxed
+// ---------------------------------------------------------------------------------------------
+
+#[cfg(not(feature = "alt"))]
+fn reentrant_body(_drain_inside: bool) -> vsched::Body {
+    crate::common::wrong_build()
+}
+
+#[cfg(feature = "alt")]
+mod reent {
+    use super::*;
+    use ractor::message::{BoxedDowncastErr, BoxedMessage};
+    use ractor::ActorCell;
+
+    /// `Nested(n, target, inner)`: while it is being boxed (its sender already holds an admission ticket) it
+    /// sends `Plain(inner)` to the same actor; `DrainInside(n, target)` calls drain() from inside box_message
+    pub enum RMsg {
+        Plain(u32),
+        Nested(u32, ActorCell, u32, Arc<Mutex<Vec<String>>>),
+        DrainInside(u32, ActorCell, Arc<Mutex<Vec<String>>>),
+    }
+    impl RMsg {
+        pub fn id(&self) -> u32 {
+            match self {
+                RMsg::Plain(n) | RMsg::Nested(n, ..) | RMsg::DrainInside(n, ..) => *n,
+            }
+        }
+    }
+    impl ractor::Message for RMsg {
+        fn box_message(self, _pid: &ractor::ActorId) -> Result<BoxedMessage, BoxedDowncastErr> {
+            match &self {
+                RMsg::Nested(_, target, inner, log) => {
+                    let r = target.send_message(RMsg::Plain(*inner));
+                    log.lock().unwrap().push(format!("nested{}={}", inner, r.is_ok()));
+                }
+                RMsg::DrainInside(_, target, log) => {
+                    let r = target.drain();
+                    log.lock().unwrap().push(format!("drain-inside={}", r.is_ok()));
+                }
+                RMsg::Plain(_) => {}
+            }
+            // (the fields of BoxedMessage are private: box through a carrier type with the default impl)
+            Carrier(self).box_message(_pid)
+        }
+        fn from_boxed(m: BoxedMessage) -> Result<Self, BoxedDowncastErr> {
+            Carrier::from_boxed(m).map(|c| c.0)
+        }
+    }
+    pub struct Carrier(RMsg);
+    impl ractor::Message for Carrier {}
+
+    pub struct RConsumer {
+        pub log: Arc<Mutex<Vec<String>>>,
+    }
+    #[ractor::async_trait]
+    impl Actor for RConsumer {
+        type Msg = RMsg;
+        type State = ();
+        type Arguments = ();
+        async fn pre_start(&self, _m: ActorRef<RMsg>, _: ()) -> Result<(), ActorProcessingErr> {
+            Ok(())
+        }
+        async fn handle(&self, _me: ActorRef<RMsg>, msg: RMsg, _: &mut ()) -> Result<(), ActorProcessingErr> {
+            self.log.lock().unwrap().push(format!("h{}", msg.id()));
+            Ok(())
+        }
+        async fn post_stop(&self, _m: ActorRef<RMsg>, _: &mut ()) -> Result<(), ActorProcessingErr> {
+            self.log.lock().unwrap().push("post_stop".into());
+            Ok(())
+        }
+    }
+}
+
+#[cfg(feature = "alt")]
+fn reentrant_body(drain_inside: bool) -> vsched::Body {
+    use reent::*;
+    Arc::new(move || {
+        Box::pin(async move {
+            let log = Arc::new(Mutex::new(Vec::new()));
+            let suplog = Arc::new(Mutex::new(Vec::new()));
+            let (sup, suph) = Actor::spawn(None, Sup { log: suplog.clone() }, ()).await.expect("sup");
+            let (a, h) = Actor::spawn_linked(None, RConsumer { log: log.clone() }, (), sup.get_cell()).await.expect("consumer");
+            let mut ss = Vec::new();
+            let (a1, l1) = (a.clone(), log.clone());
+            ss.push(vsched::spawn("sender", async move {
+                let call = vsched::call_stamp();
+                let m = if drain_inside { RMsg::DrainInside(1, a1.get_cell(), l1) } else { RMsg::Nested(1, a1.get_cell(), 50, l1) };
+                let r = a1.cast(m);
+                (call, 1u32, r.is_ok())
+            }));
+            let a2 = a.clone();
+            ss.push(vsched::spawn("sender", async move {
+                let call = vsched::call_stamp();
+                let r = a2.cast(RMsg::Plain(2));
+                (call, 2u32, r.is_ok())
+            }));
+            let a3 = a.clone();
+            let d = vsched::spawn("drainer", async move {
+                let r = a3.drain();
+                (vsched::ret_stamp(), r.is_ok())
+            });
+            vsched::quiesce();
+            let mut sends = Vec::new();
+            for s in ss {
+                sends.push(s.await.expect("sender"));
+            }
+            let (drain_ret, drain_ok) = d.await.expect("drainer");
+            h.await.expect("consumer join handle");
+            vsched::quiesce();
+            let mut bad = Vec::new();
+            if !drain_ok {
+                bad.push("drain returned Err".to_string());
+            }
+            if a.get_status() != ActorStatus::Stopped {
+                bad.push(format!("actor status {:?} after its join handle completed", a.get_status()));
+            }
+            let l = log.lock().unwrap().clone();
+            for (call, m, ok) in &sends {
+                let handled = l.iter().filter(|e| **e == format!("h{m}")).count();
+                if *ok && handled != 1 {
+                    bad.push(format!("message {m} was accepted but handled {handled} times: {l:?}"));
+                }
+                if !*ok && handled != 0 {
+                    bad.push(format!("message {m} was rejected but handled: {l:?}"));
+                }
+                if *ok && *call > drain_ret {
+                    bad.push(format!("send of {m} began after drain() returned but was accepted"));
+                }
+            }
+            for e in l.iter().filter(|e| e.starts_with("nested")) {
+                let (m, ok) = e[6..].split_once('=').unwrap();
+                let handled = l.iter().filter(|x| **x == format!("h{m}")).count();
+                if ok == "true" && handled != 1 {
+                    bad.push(format!("the send issued while message 1 was being boxed was accepted but handled {handled} times: {l:?}"));
+                }
+                if ok == "false" && handled != 0 {
+                    bad.push(format!("the send issued while message 1 was being boxed was rejected but handled: {l:?}"));
+                }
+            }
+            if l.iter().filter(|e| *e == "post_stop").count() != 1 || l.last().map(|s| s.as_str()) != Some("post_stop") {
+                bad.push(format!("post_stop must run exactly once, last: {l:?}"));
+            }
+            let sl = suplog.lock().unwrap().clone();
+            let term: Vec<&String> = sl.iter().filter(|e| e.starts_with("terminated") || e.starts_with("failed")).collect();
+            if term.len() != 1 || term[0] != "terminated state=true reason=Some(\"Drained\")" {
+                bad.push(format!("supervisor must see exactly one termination with reason Drained: {sl:?}"));
+            }
+            sup.stop(None);
+            suph.await.expect("sup handle");
+            Outcome { key: format!("sends={:?} log={l:?}", sends.iter().map(|s| (s.1, s.2)).collect::<Vec<_>>()), violations: bad }
+        })
+    })
+}
+
 const S_KINDS: &[PointKind] = &[PointKind::Atomic, PointKind::Channel, PointKind::Other];
 
 pub fn plan(tier: &str) -> Plan {
@@ -346,6 +501,11 @@ pub fn plan(tier: &str) -> Plan {
     units.push(Unit::explore_split(Job::new("live/2senders-drain", live_cfg.clone(), Some(lb), live_body(2, false, false)), 4));
     units.push(Unit::explore_split(Job::new("live/2senders-drain_and_wait", live_cfg.clone(), Some(lb), live_body(2, false, true)), 4));
     units.push(Unit::explore_split(Job::new("live/selfsend-drain", live_cfg.clone(), Some(lb), live_body(1, true, false)), 4));
+    // sends and drains issued re-entrantly while a message is being boxed (custom Message::box_message: only
+    // possible in ractor's cluster build, so these run on the alt build of the harness)
+    for drain_inside in [false, true] {
+        units.push(crate::common::alt_unit(format!("alt/reentrant/{}", if drain_inside { "drain-while-boxing" } else { "send-while-boxing" }), live_cfg.clone(), Some(lb + 1), reentrant_body(drain_inside), 4));
+    }
     Plan {
         property: "C07",
         units,
@@ -354,6 +514,7 @@ pub fn plan(tier: &str) -> Plan {
             "sequential consistency: weaker orderings of the Relaxed/AcqRel accesses are not explored".into(),
             "each tokio channel / Notify operation and each std lock operation is one atomic step".into(),
             "bounds: 2-3 senders, 1-2 drainers, 1-2 operations each".into(),
+            "re-entrant sends / drains from inside Message::box_message need ractor's cluster feature: those units run on the alt build of the harness".into(),
         ],
         engine: "vsched (shuttle coroutines + deviation-bounded DFS) on the real ractor code",
     }
